@@ -66,6 +66,13 @@ Definition judge (k : c05case) : N :=
   let d := decode_param pi64 pi32 pf (k5_def k) (k5_frag k) in
   let vr := validate_param pi64 pi32 pf rc rm fo (k5_multi k) (k5_def k) (k5_frag k) in
   let same := dres_same k d && N.eqb (vres_code vr) (g5_valid k) in
+  (* a header or cookie that the request carries is never reported as missing *)
+  let carried := match pd_in (k5_def k) with
+                 | LHeader => match assoc (pd_name (k5_def k)) (f_header (k5_frag k)) with Some _ => true | None => false end
+                 | LCookie => match assoc (pd_name (k5_def k)) (f_cookie (k5_frag k)) with Some _ => true | None => false end
+                 | _ => false
+                 end in
+  if carried && N.eqb (g5_valid k) 1 then J_VIOL else
   match k5_sval k with
   | None =>
       (* malformed stream: no independent spec for the value; the property only demands a
